@@ -115,6 +115,7 @@ pub fn oracle(c: &Case, st: &mut Stats) -> Verdict {
     st.class_if(r.ingredients.iter().any(|i| i.relation.is_intermediate_reference()), "has-intermediate-reference");
     st.class_if(!r.metadata.map.is_empty(), "has-metadata");
     st.class_if(r.ingredients.iter().any(|i| i.note.as_deref() == Some("")), "empty-note");
+    st.class_if(r.ingredients.iter().any(|i| i.reference.is_some()), "recipe-path-reference");
     roundtrip_scalable(r, &src)?;
     if c.stage % 3 == 0 {
         return Ok(());
@@ -162,6 +163,18 @@ pub fn run(tier: Tier) -> i32 {
                 st.sample(|| c.input.describe());
                 oracle(c, st)
             },
+        );
+    }
+    if !run.failed() {
+        run_prop(
+            &mut run,
+            "line-documents",
+            "random line documents (recipe path references with odd segments, standard metadata, mode switches, fences, soup lines) through the same stages",
+            || {
+                (crate::soup::lines_strategy(), 0u8..3, prop_oneof![(1e-3f64..1e3), Just(1.0)], 0u8..3).prop_map(|(input, stage, f, convert)| Case { input, stage, factor_bits: f.to_bits(), convert })
+            },
+            tier.pick(30_000, 3_000_000),
+            |c: &Case, st| oracle(c, st),
         );
     }
     run.finish()
